@@ -1,6 +1,7 @@
 use std::cmp::Ordering;
 use std::error::Error;
-use std::ffi::OsString;
+use crate::util::OsStrExt;
+use std::ffi::{OsStr, OsString};
 use std::fmt::{self, Debug, Display};
 use std::marker::PhantomData;
 use std::path::{Path, PathBuf};
@@ -409,6 +410,16 @@ impl<T: ArgumentValue> ArgInfo<T> {
     where
         F: FnOnce() -> Option<OsString>,
     {
+        self.process_os(arg, OsStr::new(arg), get_next_arg)
+    }
+
+    /// Like `process`, where `arg` is a (possibly lossy) rendering of the real
+    /// argument `raw`: a concatenated value is taken from `raw`, so that bytes
+    /// that are not valid unicode reach the compiler unchanged.
+    fn process_os<F>(self, arg: &str, raw: &OsStr, get_next_arg: F) -> ArgParseResult<Argument<T>>
+    where
+        F: FnOnce() -> Option<OsString>,
+    {
         Ok(match self {
             ArgInfo::Flag(s, variant) => {
                 debug_assert_eq!(s, arg);
@@ -430,11 +441,10 @@ impl<T: ArgumentValue> ArgInfo<T> {
                         len += 1;
                     }
                 }
-                Argument::WithValue(
-                    s,
-                    create(arg[len..].into())?,
-                    ArgDisposition::Concatenated(d),
-                )
+                let value = raw
+                    .split_prefix(&arg[..len])
+                    .unwrap_or_else(|| arg[len..].into());
+                Argument::WithValue(s, create(value)?, ArgDisposition::Concatenated(d))
             }
             ArgInfo::TakeArg(s, create, ArgDisposition::CanBeSeparated(d))
             | ArgInfo::TakeArg(s, create, ArgDisposition::CanBeConcatenated(d)) => {
@@ -443,7 +453,7 @@ impl<T: ArgumentValue> ArgInfo<T> {
                 } else {
                     ArgInfo::TakeArg(s, create, ArgDisposition::Concatenated(d))
                 };
-                match derived.process(arg, get_next_arg) {
+                match derived.process_os(arg, raw, get_next_arg) {
                     Err(ArgParseError::UnexpectedEndOfArgs) if d.is_none() => {
                         Argument::WithValue(s, create("".into())?, ArgDisposition::Concatenated(d))
                     }
@@ -625,7 +635,7 @@ where
             let s = arg.to_string_lossy();
             let arguments = &mut self.arguments;
             Some(match self.arg_info.search(&s[..]) {
-                Some(i) => i.clone().process(&s[..], || arguments.next()),
+                Some(i) => i.clone().process_os(&s[..], &arg, || arguments.next()),
                 None => Ok(if s.starts_with('-') {
                     Argument::UnknownFlag(arg.clone())
                 } else {
